@@ -26,16 +26,51 @@ class _Canon(ast.NodeTransformer):
         return node
 
 
+_LOAD = ast.Load()
+
+
+def _copy(node):
+    """Structural copy of an AST (fields only: parent links and positions are not followed)."""
+    if isinstance(node, ast.AST):
+        if isinstance(node, ast.expr_context):
+            return _LOAD
+        new = node.__class__()
+        for f in node._fields:
+            try:
+                v = getattr(node, f)
+            except AttributeError:
+                continue
+            setattr(new, f, _copy(v))
+        for a in ('lineno', 'col_offset', 'end_lineno', 'end_col_offset'):
+            if hasattr(node, a):
+                setattr(new, a, getattr(node, a))
+        return new
+    if isinstance(node, list):
+        return [_copy(x) for x in node]
+    return node
+
+
 def canon(node):
-    """Return a canonicalised deep copy of *node*."""
-    return _Canon().visit(copy.deepcopy(node))
+    """Return a canonicalised copy of *node* (comparison direction, Load/Store context erased)."""
+    return _Canon().visit(_copy(node))
+
+
+_DUMP_CACHE = {}
 
 
 def dump(node):
-    """Location-free canonical structural key of an AST node."""
+    """Location-free canonical structural key of an AST node (memoised per node object)."""
     if node is None:
         return 'None'
-    return ast.dump(canon(node), annotate_fields=False, include_attributes=False)
+    k = id(node)
+    hit = _DUMP_CACHE.get(k)
+    if hit is not None and hit[0] is node:
+        return hit[1]
+    d = ast.dump(canon(node), annotate_fields=False, include_attributes=False)
+    if len(_DUMP_CACHE) > 200000:
+        _DUMP_CACHE.clear()
+    _DUMP_CACHE[k] = (node, d)
+    return d
 
 
 def same(a, b):
